@@ -1393,6 +1393,87 @@ func (m *Model) RunNilFuncCall(s *Sink, rule string, fns []*ssa.Function) {
 						}
 					}
 				}
+				// the predicate is asked by the callers of a helper that makes the call (`callCustomFunc(name, ...)` under
+				// `if hasCustomFunc(..., name)`): every static call site of this function is guarded that way
+				if !guarded {
+					kroot, kpath, kok := pathOf(lk.Index)
+					if par, isPar := lk.Index.(*ssa.Parameter); isPar {
+						kroot, kpath, kok = par, "", true
+					}
+					if kp, isKP := kroot.(*ssa.Parameter); isKP && kok {
+						kIdx := -1
+						for i, q := range fn.Params {
+							if q == kp {
+								kIdx = i
+							}
+						}
+						node := m.CG.Nodes[fn]
+						all := kIdx >= 0 && node != nil && len(node.In) > 0
+						if all {
+							for _, e := range node.In {
+								if e.Site == nil || e.Site.Common().StaticCallee() != fn || kIdx >= len(e.Site.Common().Args) {
+									all = false
+									break
+								}
+								keyVal := e.Site.Common().Args[kIdx]
+								siteOK := false
+								for _, f := range pointOf(e.Site).facts {
+									pc, isCall := f.Cond.(*ssa.Call)
+									if !isCall || !f.Holds || pc.Call.StaticCallee() == nil || !m.InModule(pc.Call.StaticCallee()) || pc.Call.StaticCallee().Blocks == nil {
+										continue
+									}
+									pf := pc.Call.StaticCallee()
+									keyArg := -1
+									vroot, vpath, vok := pathOf(keyVal)
+									if !vok {
+										vroot, vpath = keyVal, ""
+									}
+									for i, a := range pc.Call.Args {
+										if a == keyVal && kpath == "" {
+											keyArg = i
+										}
+										if ar, ap, aok := pathOf(a); aok && ar == vroot && ap == vpath+kpath {
+											keyArg = i
+										}
+									}
+									if keyArg < 0 || keyArg >= len(pf.Params) {
+										continue
+									}
+									exact := true
+									for _, pb := range pf.Blocks {
+										r, isR := pb.Instrs[len(pb.Instrs)-1].(*ssa.Return)
+										if !isR || len(r.Results) != 1 {
+											continue
+										}
+										if k, isK := r.Results[0].(*ssa.Const); isK && k.Value != nil && !constant.BoolVal(k.Value) {
+											continue
+										}
+										okRet := false
+										if bo, isBo := r.Results[0].(*ssa.BinOp); isBo && bo.Op == token.NEQ {
+											if k, isK := bo.Y.(*ssa.Const); isK && k.IsNil() {
+												if l2, isL := bo.X.(*ssa.Lookup); isL && l2.Index == ssa.Value(pf.Params[keyArg]) {
+													okRet = true
+												}
+											}
+										}
+										if !okRet {
+											exact = false
+										}
+									}
+									if exact {
+										siteOK = true
+									}
+								}
+								if !siteOK {
+									all = false
+								}
+							}
+						}
+						if all {
+							guarded = true
+						}
+					}
+				}
 				if guarded {
 					s.OK(rule, key, m.InstrPos(in), "under the found flag of the lookup, a test against nil, or a predicate that answers whether the entry under this key is there")
 				} else {
